@@ -17,7 +17,7 @@ CONSTANTS Prog, KeepHist
 VARIABLES th, regs, hist
 vars == <<th, regs, hist>>
 
-P == IF Prog = "regex" THEN ThreadRegex ELSE ThreadPlain
+P == IF Prog = "regex" THEN ThreadRegex ELSE IF Prog = "bits" THEN ThreadBits ELSE ThreadPlain
 DP == DescribeProg(P.prog)
 T == {1, 2}
 Raw(i) == P.raws[i]
